@@ -102,7 +102,13 @@ class Ctx:
         verdict (a construct that vanished is usually the violation itself); otherwise the run ends
         as an analysis error.'''
         inspected = inspected or 0
-        self.floors[rule] = {'expected_min': expected_min, 'inspected': inspected}
+        # the count confirmed by reading is exact for today's tree; a behaviour-preserving edit may merge or drop a site or
+        # two (a helper call replaced by a slice, two loops merged into one), so large counts get a margin of one in five -
+        # a rule that lost its anchors inspects nothing, not four fifths
+        confirmed = expected_min
+        if expected_min >= 5:
+            expected_min = expected_min - max(1, expected_min // 5)
+        self.floors[rule] = {'expected_min': expected_min, 'confirmed': confirmed, 'inspected': inspected}
         if inspected < expected_min:
             self.errors.append(f'rule {rule} inspected {inspected} sites, fewer than the {expected_min} '
                                f'confirmed by reading: the rule no longer understands this tree')
